@@ -3,75 +3,146 @@ package main
 import (
 	"go/ast"
 	"go/token"
+	"strconv"
 	"strings"
 )
 
-// C01: constants the byte-level model relies on.
-//   OPTIONAL_REVERT_GAS; the minimum calldata lengths of the four handlers that have one; the 10^10 exponents.
+// C01: constants the byte-level model relies on. Located by SHAPE; `none` (unavailable) when the anchor is out of reach.
+//   optionalRevertGas : Option Nat        the integer constant added to the optional message's fee word in Erc20DepositHandler
+//                       (the operand of `big.NewInt(<const or literal>)` inside an `….Add(…)` of HandleDeposit), resolved through
+//                       package-level constants
+//   min<Handler> : Option Nat             the handler's first calldata-length guard `len(<[]byte parameter>) < N` (either spelling)
+//   btcListenerScale / btcExecutorScale : Option (Nat × Nat)   base and exponent of `….Exp(big.NewInt(b), big.NewInt(e), nil)`
 func init() {
 	extractors["C01"] = func(o *Out) {
-		gas := "none"
+		// ---- revert gas
 		f := o.ParseFile("chains/evm/listener/depositHandlers/erc20.go")
-		if f != nil {
-			Walk(f, func(n ast.Node) bool {
-				if vs, ok := n.(*ast.ValueSpec); ok && len(vs.Names) == 1 && vs.Names[0].Name == "OPTIONAL_REVERT_GAS" && len(vs.Values) == 1 {
-					if lit, ok := vs.Values[0].(*ast.BasicLit); ok && lit.Kind == token.INT {
-						gas = "some " + lit.Value
+		consts := c06Consts(f)
+		gas, gasOK := 0, false
+		if fd := FindFunc(f, "Erc20DepositHandler", "HandleDeposit"); fd != nil {
+			Walk(fd.Body, func(n ast.Node) bool {
+				c, ok := n.(*ast.CallExpr)
+				if !ok || gasOK {
+					return true
+				}
+				sel, ok := c.Fun.(*ast.SelectorExpr)
+				if !ok || sel.Sel.Name != "Add" {
+					return true
+				}
+				for _, a := range c.Args {
+					if ac, ok := a.(*ast.CallExpr); ok && Src(ac.Fun) == "big.NewInt" && len(ac.Args) == 1 {
+						if v, ok := c01Int(ac.Args[0], consts); ok {
+							gas, gasOK = v, true
+						}
 					}
 				}
 				return true
 			})
 		}
+		if !gasOK {
+			o.Unavailable("optionalRevertGas", "no `….Add(…, big.NewInt(<integer constant>))` found in Erc20DepositHandler.HandleDeposit")
+		}
 		o.Facts["OPTIONAL_REVERT_GAS"] = gas
-		o.Lean.WriteString("def optionalRevertGas : Option Nat := " + gas + "\n\n")
+		o.Lean.WriteString("def optionalRevertGas : Option Nat := " + LeanOpt(gasOK, c06itoa(gas)) + "\n\n")
 
-		// first `if len(calldata) < N` of each handler
-		minLen := func(file, recv, fn string) string {
-			fd := FindFunc(o.ParseFile(file), recv, fn)
-			res := "none"
+		// ---- first calldata-length guard of each handler
+		minLen := func(def, file, recv, fn string) {
+			pf := o.ParseFile(file)
+			cs := c06Consts(pf)
+			fd := FindFunc(pf, recv, fn)
+			n, ok := 0, false
 			if fd != nil {
-				for _, st := range fd.Body.List {
-					if is, ok := st.(*ast.IfStmt); ok {
-						if be, ok := is.Cond.(*ast.BinaryExpr); ok && be.Op == token.LSS && Src(be.X) == "len(calldata)" {
-							if lit, ok := be.Y.(*ast.BasicLit); ok {
-								res = "some " + lit.Value
-							}
+				// []byte parameters
+				params := []string{}
+				for _, fl := range fd.Type.Params.List {
+					if Src(fl.Type) == "[]byte" {
+						for _, nm := range fl.Names {
+							params = append(params, nm.Name)
 						}
+					}
+				}
+				for _, st := range fd.Body.List {
+					is, isIf := st.(*ast.IfStmt)
+					if !isIf {
+						continue
+					}
+					for _, p := range params {
+						if v, found := c06LenBelow(is.Cond, "len("+p+")", cs); found && !ok {
+							n, ok = v, true
+						}
+					}
+					if ok {
 						break
 					}
 				}
 			}
-			o.Facts["minlen:"+file+":"+fn] = res
-			return res
+			if !ok {
+				o.Unavailable(def, "no top-level `if len(<[]byte parameter>) < N` found in "+fn+" of "+file)
+			}
+			o.Facts["minlen:"+def] = n
+			o.Lean.WriteString("def " + def + " : Option Nat := " + LeanOpt(ok, c06itoa(n)) + "\n")
 		}
-		rows := []string{
-			"(\"erc20\", " + minLen("chains/evm/listener/depositHandlers/erc20.go", "Erc20DepositHandler", "HandleDeposit") + ")",
-			"(\"erc721\", " + minLen("chains/evm/listener/depositHandlers/erc721.go", "Erc721DepositHandler", "HandleDeposit") + ")",
-			"(\"generic\", " + minLen("chains/evm/listener/depositHandlers/permissionless.go", "PermissionlessGenericDepositHandler", "HandleDeposit") + ")",
-			"(\"substrate\", " + minLen("chains/substrate/listener/deposit-handler.go", "", "FungibleTransferHandler") + ")",
-		}
-		o.Lean.WriteString("def minCalldata : List (String × Option Nat) := [" + strings.Join(rows, ", ") + "]\n\n")
+		minLen("minErc20", "chains/evm/listener/depositHandlers/erc20.go", "Erc20DepositHandler", "HandleDeposit")
+		minLen("minErc721", "chains/evm/listener/depositHandlers/erc721.go", "Erc721DepositHandler", "HandleDeposit")
+		minLen("minGeneric", "chains/evm/listener/depositHandlers/permissionless.go", "PermissionlessGenericDepositHandler", "HandleDeposit")
+		minLen("minSubstrate", "chains/substrate/listener/deposit-handler.go", "", "FungibleTransferHandler")
+		o.Lean.WriteString("\n")
 
-		// Exp(big.NewInt(b), big.NewInt(e), nil) in the two Bitcoin handlers
-		exp := func(file, recv, fn string) string {
-			fd := FindFunc(o.ParseFile(file), recv, fn)
-			res := "none"
+		// ---- Exp(big.NewInt(b), big.NewInt(e), nil) in the two Bitcoin handlers
+		exp := func(def, file, recv, fn string) {
+			pf := o.ParseFile(file)
+			cs := c06Consts(pf)
+			fd := FindFunc(pf, recv, fn)
+			b, e, ok := 0, 0, false
 			if fd != nil {
 				Walk(fd.Body, func(n ast.Node) bool {
-					if c, ok := n.(*ast.CallExpr); ok && strings.HasSuffix(Src(c.Fun), ".Exp") && len(c.Args) == 3 {
-						a, b := Src(c.Args[0]), Src(c.Args[1])
-						if strings.HasPrefix(a, "big.NewInt(") && strings.HasPrefix(b, "big.NewInt(") {
-							res = "some (" + strings.TrimSuffix(strings.TrimPrefix(a, "big.NewInt("), ")") + ", " +
-								strings.TrimSuffix(strings.TrimPrefix(b, "big.NewInt("), ")") + ")"
+					c, isCall := n.(*ast.CallExpr)
+					if !isCall || len(c.Args) != 3 {
+						return true
+					}
+					if sel, isSel := c.Fun.(*ast.SelectorExpr); !isSel || sel.Sel.Name != "Exp" {
+						return true
+					}
+					a0, ok0 := c.Args[0].(*ast.CallExpr)
+					a1, ok1 := c.Args[1].(*ast.CallExpr)
+					if ok0 && ok1 && Src(a0.Fun) == "big.NewInt" && Src(a1.Fun) == "big.NewInt" && len(a0.Args) == 1 && len(a1.Args) == 1 {
+						bv, okb := c01Int(a0.Args[0], cs)
+						ev, oke := c01Int(a1.Args[0], cs)
+						if okb && oke {
+							b, e, ok = bv, ev, true
 						}
 					}
 					return true
 				})
 			}
-			o.Facts["exp:"+file] = res
-			return res
+			if !ok {
+				o.Unavailable(def, "no `….Exp(big.NewInt(b), big.NewInt(e), nil)` with integer constants found in "+fn+" of "+file)
+			}
+			o.Facts["exp:"+def] = []int{b, e}
+			o.Lean.WriteString("def " + def + " : Option (Nat × Nat) := " + LeanOpt(ok, c06itoa(b)+", "+c06itoa(e)) + "\n")
 		}
-		o.Lean.WriteString("def btcListenerScale : Option (Nat × Nat) := " + exp("chains/btc/listener/deposit-handler.go", "BtcDepositHandler", "HandleDeposit") + "\n")
-		o.Lean.WriteString("def btcExecutorScale : Option (Nat × Nat) := " + exp("chains/btc/executor/message-handler.go", "", "ERC20MessageHandler") + "\n")
+		exp("btcListenerScale", "chains/btc/listener/deposit-handler.go", "BtcDepositHandler", "HandleDeposit")
+		exp("btcExecutorScale", "chains/btc/executor/message-handler.go", "", "ERC20MessageHandler")
 	}
+}
+
+// c01Int: integer literal, or identifier of a package-level integer constant of the same file, possibly parenthesised / int64(...)
+func c01Int(e ast.Expr, consts map[string]int) (int, bool) {
+	switch x := e.(type) {
+	case *ast.ParenExpr:
+		return c01Int(x.X, consts)
+	case *ast.BasicLit:
+		if x.Kind == token.INT {
+			v, err := strconv.Atoi(strings.ReplaceAll(x.Value, "_", ""))
+			return v, err == nil
+		}
+	case *ast.Ident:
+		v, ok := consts[x.Name]
+		return v, ok
+	case *ast.CallExpr:
+		if len(x.Args) == 1 && (Src(x.Fun) == "int64" || Src(x.Fun) == "int") {
+			return c01Int(x.Args[0], consts)
+		}
+	}
+	return 0, false
 }
